@@ -445,7 +445,8 @@ pub fn run(ctx: &mut Ctx) {
                         // a composite call whose leading terms are fine and whose LAST term is refused (b of the wrong
                         // length): update_data is "the four updates in order", so P, q and A are applied and the
                         // error comes back; whatever has been applied must have reached every copy (data, KKT, engine)
-                        let vp: Vec<f64> = model.p.nzval.iter().map(|x| x * rng.range(0.9, 1.1)).collect();
+                        // (a congruence keeps P positive semidefinite; an entrywise perturbation need not)
+                        let vp: Vec<f64> = p_congruence(&mut rng, &model.p);
                         let va: Vec<f64> = model.a.nzval.iter().map(|x| x * rng.range(0.9, 1.1) + 0.01 * rng.range(-1.0, 1.0)).collect();
                         let vbad = vec![1.0; m + 1];
                         result = catch(std::panic::AssertUnwindSafe(|| map_err!(solver.update_data(&vp, &vq, &va, &vbad)))).unwrap_or_else(|e| Err(format!("PANIC {e}")));
